@@ -411,6 +411,15 @@ func stdScope() *Scope {
 	add("arr", "a0", gvList())
 	add("obj", "o1", gvMap("name", gvStr("Ann"), "age", gvInt(30), "Tags", gvList(gvStr("x"))))
 	add("nil", "nn", gvNil())
+	// names that start with a keyword and go on with digits or letters are ordinary names
+	add("int", "in2", gvInt(4))
+	add("bool", "true1", gvBool(false))
+	add("bool", "false0", gvBool(true))
+	add("str", "nil7", gvStr("n7"))
+	add("int", "index", gvInt(2))
+	add("str", "endless", gvStr("e"))
+	add("int", "in_2", gvInt(6))
+	add("float", "elsewhere9", gvFloat(2.5))
 	return sc
 }
 
